@@ -83,8 +83,24 @@ func (ex *Exec) newState(tag string) *State {
 	return st
 }
 
-// VerifyFunction generates all obligations of fn against contract c.
+// VerifyFunction generates all obligations of fn against contract c. An internal error of the generator on
+// this function is reported as an undischarged obligation (the function is not verified), never swallowed.
 func (ex *Exec) VerifyFunction(fn *ssa.Function, c *Contract) {
+	defer func() {
+		if r := recover(); r != nil {
+			if _, isEval := r.(evalErr); isEval {
+				panic(r)
+			}
+			msg := fmt.Sprint(r)
+			ex.obls = append(ex.obls, &Obligation{Name: c.Key + "#tool-limit@internal-error", Kind: "limit", Props: propSet(allProps(c)), Fn: c.Key,
+				Goal: TFalse, Note: "the VC generator cannot handle this function body: " + firstN(msg, 300), Res: SolverResult{Status: "unknown", Solver: "generator", Raw: msg}})
+			ex.keepTopFrame = false
+		}
+	}()
+	ex.verifyFunction(fn, c)
+}
+
+func (ex *Exec) verifyFunction(fn *ssa.Function, c *Contract) {
 	ex.top = fn
 	ex.topC = c
 	ex.pathCount = 0
@@ -151,7 +167,15 @@ func (ex *Exec) VerifyFunction(fn *ssa.Function, c *Contract) {
 		ex.atReturn(fn, c, pre, post, vars, res)
 	})
 	ex.keepTopFrame = false
-	ex.oblige(st, "vacuity", c.Key+"#reachable-return", allProps(c), Bool(nret > 0), "no return path explored")
+	// vacuity guard: a function none of whose paths reaches a return proves nothing
+	vac := &Obligation{Name: c.Key + "#reachable-return", Kind: "vacuity", Props: propSet(allProps(c)), Fn: c.Key, Goal: Bool(nret > 0),
+		Note: "no return path could be explored (every path ends in an unsupported or rejected construct): the function is not verified"}
+	if nret > 0 {
+		vac.Res = SolverResult{Status: "unsat", Solver: "syntactic"}
+	} else {
+		vac.Res = SolverResult{Status: "unknown", Solver: "generator"}
+	}
+	ex.obls = append(ex.obls, vac)
 }
 
 func allProps(c *Contract) []string {
